@@ -20,6 +20,7 @@ class HarnessError(Exception):
 
 
 OBS_OPS = {
+    "read_elems",
     "solve",
     "read_variables",
     "read_n",
@@ -104,6 +105,8 @@ class Executor:
             if inner[0] == "solve":
                 plan = {k: inner[2][k] for k in ("fault", "peer", "peers") if k in inner[2]} or None
             w.begin_op(plan)
+            if plan:
+                rec["planned"] = sorted(plan)
             try:
                 if reclimit is not None:
                     from optyx.core.autodiff import increased_recursion_limit
@@ -270,6 +273,19 @@ class Executor:
                     obs = {"text": repr(P)}
                 elif k == "summary":
                     obs = {"text": P.summary()}
+                elif k == "read_elems":
+                    route = op[2]
+                    if route[0] == "mT":
+                        M = m.vars[route[1]].T
+                        els = [M[i, j] for i in range(M.shape[0]) for j in range(M.shape[1])]
+                    elif route[0] == "msub":
+                        M = m.vars[route[1]][route[2] : route[3], route[4] : route[5]]
+                        els = [M[i, j] for i in range(M.shape[0]) for j in range(M.shape[1])]
+                    elif route[0] == "elem":
+                        els = [m.elems[route[1]]]
+                    else:
+                        els = list(S.build_vec(m, route))
+                    obs = {"elems": [[v.name, fl(v.lb), fl(v.ub), v.domain] for v in els]}
                 elif k == "is_linear":
                     obs = {"lin": bool(P._is_linear_problem())}
                 elif k == "evaluate":
